@@ -1,12 +1,31 @@
 package main
 
 import (
+	"fmt"
+	"regexp"
+	"runtime"
+	"strconv"
+	"strings"
+	"time"
+
+	"github.com/CloudyKit/jet/v6"
+
 	"jetverif/harness/h"
+	"jetverif/harness/sx"
 )
+
+// C02.  Stream "lex": the real lexer vs the model, token by token.  Stream "parse" (direct oracle):
+// Set.Parse and Set.GetTemplate on generated, mutated and deliberately malformed sources under every
+// delimiter family: a template or an error, never a panic (the worker process would die) or a hang
+// (per-case timeout), no goroutine left behind, syntax errors name the template and a line inside
+// the source, structural mistakes are always reported.  Stream "cycles": extends/import cycles
+// through every way of naming a template.
 
 func genC02(r *h.Rand, tier string) []h.Case {
 	n := 1200
-	if tier != "quick" {
+	if tier == "search" {
+		n = 4000
+	} else if tier != "quick" {
 		n = 40000
 	}
 	var cs []h.Case
@@ -25,10 +44,207 @@ func genC02(r *h.Rand, tier string) []h.Case {
 			tags = append(tags, "custom-delims")
 		}
 		cs = append(cs, h.Case{Stream: "lex", Cmd: lexCmd(d, src), NonTrivial: len(src) > 8, Tags: tags})
+		if i%3 == 0 {
+			cs = append(cs, h.Case{Stream: "parse", NoModel: true, NonTrivial: len(src) > 8, Tags: tags,
+				Cmd: sx.L(sx.A("parse-total"), sx.S(d.L), sx.S(d.R), sx.S(d.LC), sx.S(d.RC), sx.S(src), sx.A("any"))})
+		}
 	}
+	for i := 0; i < n/4; i++ {
+		d := pickDelims(r)
+		src, want := genStructural(r, d)
+		cs = append(cs, h.Case{Stream: "parse", NoModel: true, NonTrivial: true, Tags: []string{"structural-" + want},
+			Cmd: sx.L(sx.A("parse-total"), sx.S(d.L), sx.S(d.R), sx.S(d.LC), sx.S(d.RC), sx.S(src), sx.A(want))})
+	}
+	for i := 0; i < n/8; i++ {
+		cs = append(cs, genCycleCase(r))
+	}
+	// the abstract Set model the termination theorem is about, against the real Set (C16's histories:
+	// loads through extends/import references, cycles included)
+	hist := genC16(r, "quick")
+	if len(hist) > n/8 {
+		hist = hist[:n/8]
+	}
+	cs = append(cs, hist...)
 	return cs
 }
 
+// structural mistakes that must always be reported, and their well-formed counterparts
+func genStructural(r *h.Rand, d delims) (string, string) {
+	L, R, LC, RC := d.left(), d.right(), d.lcomment(), d.rcomment()
+	act := func(s string) string { return L + r.Pick([]string{"", " ", "- "}) + s + r.Pick([]string{"", " ", " -"}) + R }
+	pre := r.Pick([]string{"", "text\n", act(`"x"`), LC + " c " + RC, "a\n\nb"})
+	post := r.Pick([]string{"", "\ntail", act("1")})
+	type sc struct {
+		src  string
+		want string
+	}
+	cases := []sc{
+		{pre + L + ` "x" ` + post, "error"},                                        // unterminated action
+		{pre + LC + ` never closed ` + post, "error"},                              // unterminated comment
+		{pre + act(`"abc`) + post, "error"},                                        // unterminated string
+		{pre + act("`abc") + post, "error"},                                        // unterminated raw string
+		{pre + act(`'a`) + post, "error"},                                          // unterminated char
+		{pre + act("if true") + "x" + post, "error"},                               // missing end
+		{pre + act("range x") + "x" + act("else") + post, "error"},                 // missing end after else
+		{pre + "x" + act("end") + post, "error"},                                   // surplus end
+		{pre + act("if true") + "x" + act("end") + act("end") + post, "error"},     // surplus end
+		{pre + act("block b()") + "x" + post, "error"},                             // missing end of block
+		{pre + act("try") + "x" + act("catch") + "y" + post, "error"},              // missing end of try
+		{pre + act("else") + post, "error"},                                        // stray else
+		{pre + act("content") + post, "error"},                                     // stray content
+		{"x" + act(`extends "/base.jet"`) + post, "error"},                         // extends after content
+		{act(`"x"`) + act(`import "/base.jet"`) + post, "error"},                   // import after an action
+		{act(`import "/base.jet"`) + act(`extends "/base.jet"`), "error"},          // extends after import
+		{act(`extends "/base.jet"`) + act(`extends "/base.jet"`), "error"},         // two extends
+		{pre + act("if true") + "x" + act("else") + "y" + act("else") + "z" + act("end") + post, "error"}, // two else
+		{pre + act("yield b() content") + "c" + post, "error"},                     // yield content without end
+		{pre + act("(1 + 2") + post, "error"},                                      // unclosed paren
+		{pre + act("1 + 2)") + post, "error"},                                      // surplus paren
+		{pre + act("if true") + "x" + act("end") + post, "ok"},
+		{pre + act("range x") + "x" + act("else") + "y" + act("end") + post, "ok"},
+		{pre + act("try") + "x" + act("catch e") + "y" + act("end") + post, "ok"},
+		{act(`extends "/base.jet"`) + act(`import "/base.jet"`) + post, "ok"},
+		{"  \n" + act(`extends "/base.jet"`) + "\n " + LC + "c" + RC + post, "ok"},
+		{pre + act("block b()") + "x" + act("content") + "d" + act("end") + act("yield b() content") + "c" + act("end") + post, "ok"},
+	}
+	c := cases[r.Intn(len(cases))]
+	return c.src, c.want
+}
+
+func genCycleCase(r *h.Rand) h.Case {
+	n := 2 + r.Intn(3)
+	files := map[string]string{}
+	names := []string{"/a.jet", "/dir/b.jet", "/c.html.jet", "/dir/sub/d.jet"}[:n]
+	ref := func(to string) string {
+		// every way of naming a template: absolute, without extension, relative, unclean
+		switch r.Intn(5) {
+		case 0:
+			return to
+		case 1:
+			return strings.TrimSuffix(strings.TrimSuffix(to, ".jet"), ".html")
+		case 2:
+			return "/x/.." + to
+		case 3:
+			return "/" + strings.TrimPrefix(strings.TrimSuffix(to, ".jet"), "/")
+		}
+		return "/." + to
+	}
+	kind := func() string { return r.Pick([]string{"extends", "import"}) }
+	closed := r.Chance(80)
+	for i, nm := range names {
+		next := names[(i+1)%n]
+		if i == n-1 && !closed {
+			files[nm] = "leaf " + nm
+			continue
+		}
+		k := kind()
+		hdr := `{{` + k + ` "` + ref(next) + `"}}`
+		if r.Chance(30) && i+2 < n {
+			hdr += `{{import "` + ref(names[i+2]) + `"}}`
+		}
+		files[nm] = hdr + "body of " + nm + `{{block b()}}x{{end}}`
+	}
+	entry := names[r.Intn(n)]
+	if r.Chance(15) {
+		files[names[0]] = `{{` + kind() + ` "` + ref(names[0]) + `"}}self`
+		closed = true
+		entry = names[0]
+	}
+	meta := sx.L(sx.A("files"))
+	for p, s := range files {
+		meta.Add(sx.L(sx.S(p), sx.S(s)))
+	}
+	want := "ok"
+	if closed {
+		want = "error"
+	}
+	return h.Case{Stream: "cycles", NoModel: true, NonTrivial: true, Meta: meta, Tags: []string{"cycle-" + want},
+		Cmd: sx.L(sx.A("load-cyclic"), sx.S(entry), sx.A(want))}
+}
+
+var parseErrRe = regexp.MustCompile(`^template: ([^:]+):(\d+): `)
+
 func init() {
+	h.RegisterImpl("parse-total", func(cmd, _ *sx.Sexp) (*sx.Sexp, string) {
+		d, src := cmdDelims(cmd)
+		want := cmd.Xs[6].A
+		before := runtime.NumGoroutine()
+		files := map[string]string{"/t.jet": src, "/base.jet": "base{{block m()}}{{end}}"}
+		oracle := ""
+		res := sx.L(sx.A("parsed"))
+		for _, via := range []string{"GetTemplate", "Parse"} {
+			set := setWithDelims(files, d)
+			var err error
+			var t *jet.Template
+			if via == "GetTemplate" {
+				t, err = set.GetTemplate("/t.jet")
+			} else {
+				t, err = set.Parse("/t.jet", src)
+			}
+			switch {
+			case err == nil && t == nil:
+				oracle = via + " returned neither a template nor an error"
+			case err == nil:
+				res.Add(sx.A("ok"))
+				if want == "error" && oracle == "" {
+					oracle = via + " silently accepted a structural mistake"
+				}
+			default:
+				res.Add(sx.A("error"))
+				if want == "ok" && oracle == "" {
+					oracle = via + " rejected a well-formed template: " + clipS(err.Error())
+				}
+				m := parseErrRe.FindStringSubmatch(err.Error())
+				if m == nil {
+					if oracle == "" {
+						oracle = via + ": error does not name template and line: " + clipS(err.Error())
+					}
+				} else {
+					ln, _ := strconv.Atoi(m[2])
+					lines := strings.Count(src, "\n") + 1
+					if (m[1] != "/t.jet" || ln < 1 || ln > lines) && oracle == "" {
+						oracle = fmt.Sprintf("%s: error names %s line %d, the source is /t.jet with %d lines: %s", via, m[1], ln, lines, clipS(err.Error()))
+					}
+				}
+			}
+		}
+		// the lexer goroutine must be gone
+		deadline := time.Now().Add(200 * time.Millisecond)
+		for runtime.NumGoroutine() > before && time.Now().Before(deadline) {
+			time.Sleep(time.Millisecond)
+		}
+		if g := runtime.NumGoroutine(); g > before && oracle == "" {
+			oracle = fmt.Sprintf("%d goroutine(s) still running after parsing", g-before)
+		}
+		return res, oracle
+	})
+	h.RegisterImpl("load-cyclic", func(cmd, meta *sx.Sexp) (*sx.Sexp, string) {
+		_, files := filesOf(meta)
+		entry := string(cmd.Xs[1].B)
+		want := cmd.Xs[2].A
+		set := newSetFor(files, "html", nil)
+		before := runtime.NumGoroutine()
+		_, err := set.GetTemplate(entry)
+		oracle := ""
+		got := "ok"
+		if err != nil {
+			got = "error"
+		}
+		if got != want {
+			oracle = fmt.Sprintf("GetTemplate(%s) on a set %s: got %s (%v)", entry, map[string]string{"error": "with an extends/import cycle", "ok": "without a cycle"}[want], got, err)
+		}
+		_, err2 := set.GetTemplate(entry) // and again: the failure must not poison the set
+		if (err2 != nil) != (err != nil) && oracle == "" {
+			oracle = "a second GetTemplate gives a different verdict"
+		}
+		deadline := time.Now().Add(200 * time.Millisecond)
+		for runtime.NumGoroutine() > before && time.Now().Before(deadline) {
+			time.Sleep(time.Millisecond)
+		}
+		if g := runtime.NumGoroutine(); g > before && oracle == "" {
+			oracle = fmt.Sprintf("%d goroutine(s) still running after loading", g-before)
+		}
+		return sx.L(sx.A(got)), oracle
+	})
 	h.RegisterProp(&h.Prop{ID: "C02", Gen: genC02})
 }
